@@ -38,7 +38,7 @@ import ast
 from ..dataflow import is_shared
 from ..repo import AnalysisError, FuncInfo, dotted, own_nodes
 from ..sublist import SubInterp, apps, is_sub
-from .common import ctor_self_write, is_memo_fill
+from .common import ctor_self_write, is_memo_fill, new_private_state
 
 MANIFEST = {
     "text": (
@@ -255,6 +255,7 @@ def run(ctx):
 
     # ---------------------------------------------------------------- R07.e
     eff = ctx.effects
+    incremental_07: dict[str, set] = {}
     for key, fi in sorted(all_filters.items(), key=lambda kv: kv[1].qualname):
         ws = eff.closure_writes(fi, None, max_depth=5)
         closure = eff.closure(fi, None, max_depth=5)
@@ -267,6 +268,10 @@ def run(ctx):
             shared = [o for o in w.origins if is_shared(o) and o[0] != "unknown"]
             if not shared:
                 continue
+            nps = new_private_state(ctx, w)
+            if nps is not None:
+                incremental_07.setdefault(fi.name, set()).add(f"{w.fi.cls.name}.{nps}")
+                continue
             flagged = True
             chk.violation(
                 "R07.e", fi, w.event.node,
@@ -276,6 +281,15 @@ def run(ctx):
         if not flagged:
             chk.ok("R07.e", fi.qualname, fi.loc(), f"closure of {len(closure)} functions is write-free on shared objects")
     chk.floor("R07.e", chk.count("R07.e"), 4, "filters")
+    if incremental_07:
+        def _refuse_07():
+            f_, attrs_ = sorted(incremental_07.items())[0]
+            raise AnalysisError(
+                f"{f_} (through the queries it calls) updates bookkeeping the pinned tree does not have ({', '.join(sorted(attrs_))}); whether "
+                "that state is kept consistent - so that the filter's answer depends on the dispatcher state only - is not decided by this analysis"
+            )
+
+        ctx.attempt(_refuse_07)
 
     # ---------------------------------------------------------------- R07.g
     chk.rule("R07.g", "a filter reasons about the list it is given: it does not consult the dispatcher's own ready/available-operation queries")
@@ -471,6 +485,17 @@ def _after_composite(ctx, repo, chk):
 
     it = SubInterp(ctx, avail, {}, filter_call=filt_call, src_call=src_call)
     res = it.run()
+    if any(v_[0] in ("BAD", "PERM", "UNKNOWN") or not is_sub(v_) for v_, _n, _p in res):
+        # a step shared with a sibling query and steered by a literal flag (`self._ready_operations(apply_filter=True)`):
+        # judge the written-out form, in which the flag has decided its branches
+        try:
+            avail_f = ctx.norm.flat(avail, depth=3)
+            if ast.dump(avail_f.node) != ast.dump(avail.node):
+                res_f = SubInterp(ctx, avail_f, {}, filter_call=filt_call, src_call=src_call).run()
+                if res_f and all(is_sub(v_) for v_, _n, _p in res_f):
+                    avail, res = avail_f, res_f
+        except AnalysisError:
+            pass
     bad = False
     for val, node, path in res:
         # which branch of `self.ready_operations_filter is not None` are we on?
